@@ -1415,6 +1415,9 @@ func (w *ewWorld) needsG(p *corev1.Pod) bool {
 	if terwayTypes.PodUseENI(p) {
 		return true
 	}
+	if p.Spec.NodeName == "" {
+		return true // not scheduled yet: whatever it will need, its record must be kept
+	}
 	for _, n := range ewNodes {
 		if n.name == p.Spec.NodeName {
 			return !n.ignor && !n.vk && n.exclusive
